@@ -56,13 +56,21 @@ func main() {
 	c := core.New("C08", "fault_enumeration")
 	c.SetRule("one case = one fault sequence of 8..25 events (leader appends, replication steps with one-shot transport/follower faults, stream resets, " +
 		"follower stop/start with kept, deleted or rolled-back log, leader restart with kept or rolled-back log (whole directory, or log only with newer consumer-group meta), " +
-		"offline/online notifications, leader Sync+GC) followed by a fault-free progress phase; half of the sequences start with a directed prefix " +
-		"(leader loses a tail of 1..4 messages the follower has; follower loses its log after the leader released positions). " +
+		"node-failure / node-startup events of the follower processed by the leader's state manager (the failure closes the follower's pooled connection, the follower comes back at the same or at another address), " +
+		"leader Sync+GC) followed by a fault-free progress phase; more than half of the sequences start with a directed prefix " +
+		"(leader loses a tail of 1..4 messages the follower has; follower loses its log after the leader released positions; follower re-creates its log behind a healthy stream; " +
+		"established channel - node failure - appends - node startup at the same/another address - appends; node-startup event processed right after IsReady was told 'not live', " +
+		"or between IsReady's suspend flag and its second look at the live nodes). " +
 		"Non-trivial = a fault actually happened (a one-shot fault fired, a stream was killed, a node restarted) and a handshake completed afterwards; distinct by event list.")
 	c.Assume("a node restart is modelled as Close + reopen of the same directory (dirty mapped pages survive a process kill, so the directory content is the same)")
 	c.Assume("a follower restart always breaks the replica stream (the TCP connection dies with the process)")
 	c.Assume("'positions the leader still holds' for resuming = positions above the follower's consumer-group ack on the leader (acknowledged positions may be garbage collected at any moment); for byte comparison = positions Queue.Get still returns")
 	c.Assume("the queue directories of both nodes live on tmpfs (/dev/shm/verif-C08-<pid>, removed at the end of the run; directories of dead runs are removed at start) when /dev/shm exists, else under the run's scratch directory: every consumer-group ack msyncs its meta page, which costs milliseconds on disk and is irrelevant to the process-kill fault model")
+	c.Assume("connection life cycle as in rpc.ClientConnFactory + coordinator/storage.stateManager: every ReplicaServiceClient is bound for life to the pooled connection of the address it was created for; " +
+		"a connection survives follower restarts and stream failures, it is closed and removed from the pool by the follower's node-failure event (and with the leader's process); " +
+		"calls through a client of a closed connection fail ('the client connection is closing'), calls over a connection to an address the follower left are refused")
+	c.Assume("the state manager processes a node event under its write lock (node map update, watcher calls, connection close), GetLiveNode takes the read lock - as coordinator/storage/state_manager.go does; " +
+		"a deadlock is decided from one goroutine snapshot (event blocked sending to the replicator under the lock, replicator blocked on the lock), never from elapsed time")
 	c.Assume("the local replicator on the follower (log -> tsdb) is not run; only the log copy is judged")
 	nSeq := c.Pick(1600, 100000)
 	per := c.Pick(25, 250)
@@ -118,7 +126,11 @@ func main() {
 		if res.TimedOut {
 			died[i] = "watchdog"
 		} else if err != nil || res.ExitCode != 0 {
-			died[i] = fmt.Sprintf("exit=%d err=%v tail: %s", res.ExitCode, err, tailStr(res.Output, 6000))
+			death := res.Death
+			if len(death) > 3000 {
+				death = death[:3000]
+			}
+			died[i] = fmt.Sprintf("exit=%d err=%v death: %s ... tail: %s", res.ExitCode, err, death, tailStr(res.Output, 6000))
 		}
 		results[i] = r
 		_ = os.RemoveAll(dir)
@@ -200,6 +212,11 @@ func main() {
 		"handshake.woken_by_online_notification", "handshake.connect_failed", "handshake.branch.get_ack_failed", "handshake.branch.create_client_failed",
 		"step.delivered_and_acknowledged", "fault.fired.respLost", "fault.fired.send", "fault.fired.putErr", "fault.leader_sync_gc.released_positions",
 		"fault.follower_start.directory_deleted", "progress.converged_after_faults", "free.converged",
+		// connection life cycle and state-manager schedules: a run that never reached them says nothing about them
+		"fault.offline_notification.closed_pooled_connection", "fault.offline_notification.open_stream_killed",
+		"lifecycle.sequences_with_offline_online_at_same_address_then_append",
+		"lifecycle.handshake_completed_over_connection_reopened_after_node_failure",
+		"fault.online_notification.follower_moved_to_other_address", "fault.fired.onlineRecheckRace",
 	} {
 		if c.Counter(k) == 0 {
 			c.Inconclusive("never observed: %s", k)
